@@ -698,6 +698,7 @@ fn run_case(case: &J) -> J {
     let fuel = case.get("fuel").and_then(|x| x.as_u64()).unwrap_or(100_000);
     bladeink::verif::set_fuel(Some(fuel));
     bladeink::verif::reset_step_count();
+    let _ = bladeink::verif::take_seeds();
     let mut d = Drv {
         story_json,
         story: None,
@@ -740,10 +741,20 @@ fn run_case(case: &J) -> J {
         explore(&mut d, &script, &mut path, depth, &mut budget, &mut lines);
     }
     let fuel_left = bladeink::verif::fuel_left().unwrap_or(0);
+    // library-RNG oracle table for the seeds this run used (hook H3)
+    let mut u32s = serde_json::Map::new();
+    let mut i32s = serde_json::Map::new();
+    for (kind, seed) in bladeink::verif::take_seeds() {
+        if kind == 0 {
+            u32s.insert(seed.to_string(), json!(bladeink::verif::rng_u32(seed)));
+        } else {
+            i32s.insert(seed.to_string(), json!(bladeink::verif::rng_i32_seq(seed, 48)));
+        }
+    }
     json!({"id": id, "compile": compile, "load": load, "lines": lines,
            "out_of_fuel": fuel_left == 0, "steps": bladeink::verif::step_count(),
            "json": if case.get("want_json").is_some() { J::String(d.story_json.clone()) } else { J::Null },
-           "audit": audit})
+           "audit": audit, "rng_u32": u32s, "rng_i32": i32s})
 }
 
 fn main() {
@@ -751,6 +762,14 @@ fn main() {
     let args: Vec<String> = std::env::args().collect();
     if args.len() >= 3 && args[1] == "--pathops" {
         return pathops(&args[2]);
+    }
+    if args.len() >= 2 && args[1] == "--f32show" {
+        // Display of the given f32 bit patterns (hex), one per line
+        for a in &args[2..] {
+            let bits = u32::from_str_radix(a, 16).unwrap_or(0);
+            println!("{} {}", a, f32::from_bits(bits));
+        }
+        return;
     }
     let f = std::fs::File::open(&args[1]).expect("cases file");
     let stdout = std::io::stdout();
